@@ -504,7 +504,11 @@ class Arbiter:
         workers = list(self.WORKERS.items())
         for (pid, worker) in workers:
             try:
-                if time.monotonic() - worker.tmp.last_update() <= self.timeout:
+                # a worker started before a reload that lowered the timeout
+                # still notifies at the pace it was given (worker.timeout is
+                # half of the timeout it was started with): judge it by that
+                limit = max(self.timeout, worker.timeout * 2)
+                if time.monotonic() - worker.tmp.last_update() <= limit:
                     continue
             except (OSError, ValueError):
                 continue
